@@ -95,7 +95,8 @@ class InversionImagingWTilde(AbstractInversionImaging):
         """
 
         if self.preloads.data_vector_mapper is not None:
-            return self.preloads.data_vector_mapper
+            # Need to copy because the entries of linear function lists are written into this vector.
+            return copy.copy(self.preloads.data_vector_mapper)
 
         if not self.has(cls=AbstractMapper):
             return None
